@@ -187,3 +187,35 @@ Definition imports_error_iff_full : Prop :=
     exists e, resolve_imports st root_path root = inl e /\ positioned e = true.
 Definition imports_no_panic_full : Prop :=
   forall st root_path root, resolve_imports st root_path root <> inl PanicMissingTarget.
+
+(** * Reference reading of [resolve_operation_extensions]
+
+    The import lines of one document are grouped by path *string*.  A group is merged by a small
+    state machine over the concatenation of the lines' targets: names accumulate; a wildcard is
+    accepted only as the first and only target of the whole group. *)
+Definition item_defs (doc : list item) : list def :=
+  flat_map (fun it => match it with IDef d => [d] | _ => [] end) doc.
+Definition group (path : str) (doc : list item) : list target :=
+  flat_map (fun it => match it with
+                      | IImport _ ts p _ => if str_eqb p path then ts else []
+                      | IDef _ => []
+                      end) doc.
+Definition has_line (path : str) (doc : list item) : bool :=
+  existsb (fun it => match it with IImport _ _ p _ => str_eqb p path | IDef _ => false end) doc.
+Fixpoint merge_targets (acc : targets) (ts : list target) : option targets :=
+  match ts with
+  | [] => Some acc
+  | t :: r =>
+      match acc with
+      | Wildcard => None
+      | Specific ids =>
+          match t with
+          | TWild => match ids with [] => merge_targets Wildcard r | _ :: _ => None end
+          | TName n q => merge_targets (Specific (ids ++ [(n, q)])) r
+          end
+      end
+  end.
+Definition target_ids (ts : list target) : list (str * pos) :=
+  flat_map (fun t => match t with TName n q => [(n, q)] | TWild => [] end) ts.
+Definition no_wild (ts : list target) : bool :=
+  forallb (fun t => match t with TWild => false | _ => true end) ts.
